@@ -220,6 +220,14 @@ TG_TIERS = (
     ("I", "b", ((1.0, 3.0, "b0"),)),
     ("P", "q", ((2.0, "q0"), (4.0, "q1"))),
     ("I", "c", ((4.0, 5.0, "c0"),)),
+    # tiers that all overlap one another (indices 5-11): here the ORDER in which the selected tiers are folded shows in every fused label
+    ("I", "words", ((0.0, 4.0, "w0"),)),
+    ("I", "phones", ((1.0, 2.0, "f0"), (2.0, 3.0, "f1"))),
+    ("I", "syllables", ((1.5, 3.5, "s0"),)),
+    ("I", "notes", ((0.5, 2.5, "n0"),)),
+    ("P", "clicks", ((2.0, "k0"),)),
+    ("P", "beats", ((2.0, "b0"), (3.0, "b1"))),
+    ("P", "marks", ((2.0, "m0"),)),
 )
 
 
@@ -471,12 +479,12 @@ def parts(tier):
                         bounds={"grid_points": 5, "max_points": 3 if quick else 5}))
 
     def gen_merge():
-        orders = [(0, 1, 2, 3, 4), (2, 3, 0, 1, 4), (1, 0, 4, 2), (0, 2), (1, 3), (0,)]
+        orders = [(0, 1, 2, 3, 4), (2, 3, 0, 1, 4), (1, 0, 4, 2), (0, 2), (1, 3), (0,), (5, 6, 7, 8), (8, 7, 6, 5), (9, 10, 11), (11, 9, 10), (5, 9, 6, 10, 7, 11)]
         for order in orders:
             names = [TG_TIERS[i][1] for i in order]
             yield (order, None, True)
             for k in range(0, len(names) + 1):
-                for sub in itertools.permutations(names, k) if k <= 2 else itertools.combinations(names, k):
+                for sub in itertools.permutations(names, k) if k <= 2 or (k == 3 and order[0] >= 5 and len(order) <= 4) else itertools.combinations(names, k):
                     for preserve in (True, False):
                         yield (order, tuple(sub), preserve)
                     if k:
@@ -485,7 +493,7 @@ def parts(tier):
                             yield (order, tuple(sub), False, form)
 
     ps.append(InputPart("mergeTiers", gen_merge, _check_merge_tiers,
-                        rule="textgrids of 1-5 tiers in several orders x every subset (and ordered pair) of tier names (as list, tuple, one-shot iterator, "
+                        rule="textgrids of 1-6 tiers in several orders (one family of tiers with touching entries, one in which every tier overlaps every other, so that the fold order shows in the labels) x every subset (and ordered pair; ordered triples of the overlapping ones) of tier names (as list, tuple, one-shot iterator, "
                              "generator) x preserveOtherTiers: result = preserved tiers in order, then the left fold of union over the "
                              "selected interval tiers, then over the selected point tiers", bounds={}))
 
